@@ -1046,7 +1046,8 @@ package server
 //@   ghost accG int = 0 - 1
 //@   ghost valG int = 0
 //@   ghost emittedG intset = emptyset()
-//@   requires s != nil && s.MetaCtx != nil
+//@   requires s != nil
+//@   requires-inv [the-store-is-constructed] s != nil ==> s.MetaCtx != nil
 //@   requires-inv [existing-objects] foreign(s.deletedDatasets)
 //@   safe slice
 //@   at call NewIterator#1
@@ -1543,7 +1544,8 @@ package server
 //@   frame-assumed preserves Store.deletedDatasets, map[uint32]bool, DsManager.*, Dataset.*
 //@   ghost idG int = 0
 //@   ghost scopeG slice
-//@   requires s != nil && s.database != nil && s.NamespaceManager != nil && !has($held, addrOf(s.NamespaceManager.lock))
+//@   requires-inv [the-store-is-constructed] s != nil && s.database != nil && s.NamespaceManager != nil
+//@   requires [namespace-lock-free] !has($held, addrOf(s.NamespaceManager.lock))
 //@   requires [callers-hold-no-lock-at-or-above-the-namespace-lock] forall l int :: has($held, l) ==> lockLevel(l) < 5
 //@   at call getIDForURI#1
 //@     ghost idG := $result0
